@@ -1097,7 +1097,11 @@ fn interesting_ints(o: &mut Out, ity: &str, random: usize) -> Vec<String> {
 
 /// X9 + stratified wider integers
 pub fn g_from_int(o: &mut Out) {
-    for ty in TYPES {
+    g_from_int_types(o, &TYPES);
+}
+
+pub fn g_from_int_types(o: &mut Out, types: &[&str]) {
+    for ty in types.iter().copied() {
         o.put(&format!("zero/{}", ty), format!("zero {}", ty));
         for ity in ["i8", "u8"] {
             let (min, max) = int_bounds(ity);
